@@ -1,5 +1,6 @@
 """C10 - polynomial root finder."""
 import json
+import zlib
 
 PID = 'C10'
 
@@ -25,6 +26,8 @@ CLAIM = dict(
 
 def _stamp(quick):
     def f(c, n):
+        # TLC prints cases in a worker-dependent order: derive every choice from the case itself, not from its position
+        n = zlib.crc32(json.dumps(c, sort_keys=True).encode())
         out = []
         real = all(x == 0 for x in c['im'])
         for ty in (['f64', 'cx'] if real else ['cx']):
